@@ -362,6 +362,7 @@ def e2e_walk(ctx, build, scratch, exe, cat, m, tier):
     system = emusrv.System(spec, require=req)
     td = system.write(scratch.sub("trace-" + model))
     pool = ServerPool(exe, td, ["-l"])
+    pool.meta = system.meta if "system" in dir() else None
     try:
         s = pool.local.streams
         sidx = [s["loom.A/proc.100/thread.101"], s["loom.A/proc.100/thread.102"]]
